@@ -50,3 +50,279 @@ Print Assumptions c13_refinement.
 Print Assumptions c13_refusal.
 Print Assumptions c13_refused_leaves_unchanged.
 Print Assumptions c13_checksum_after_every_operation.
+
+(* ===================================================================================================================
+   HISTORY LEVEL (Proofs/SdtHistP.v) and COMPOSITION WITH AML (Proofs/DsdtP.v).  Statements only.
+   =================================================================================================================== *)
+From Coq Require Import Lia Bool.
+From ACPI Require Import Impl.Sink Impl.Sink2 Impl.AmlCore Impl.AmlTerm Spec.Layout Spec.AmlCoreS Spec.AmlTermS
+  Proofs.Sink2P Proofs.AmlFrameP Proofs.FieldListP Proofs.AmlRoundTrip Proofs.SdtHistP Proofs.DsdtP.
+
+(* Vocabulary (Proofs/SdtHistP.v):
+     sdt_op_ok o        o is one of the seven operation forms of Impl/Sdt.v with parameters in the range of their Rust types
+                        (width 1/2/4/8; offset < 2^64; slices shorter than 2^62; what is pushed through the sink are bytes):
+                        exactly the hypotheses of c13_refinement.  [sdt_op_okb] decides it ([sdt_ops_okb_sound]).
+     op_growth o        the number of bytes o adds when performed;  ops_growth = its sum over a history.
+     sdt_model_run md   the table after a history, by iterating the model's own step function [sdt_step]
+                        (a refused operation keeps the table);  sdt_spec_run is the Spec's (Spec/SdtS.v). *)
+
+(* After ANY sequence of operations, in both build profiles: the model's table and the Spec's plain byte vector (same
+   appends and writes, Length rewritten on every append, checksum byte recomputed after every operation, refused writes
+   leaving it unchanged) are the same vector -- as long as the table stays below 2^62 bytes. *)
+Theorem c13_history_refines :
+  forall md ops v,
+    sdt_wf v -> Forall sdt_op_ok ops -> N.of_nat (length v) + ops_growth ops < 2 ^ 62 ->
+    exists v', sdt_model_run md v ops = Some v' /\ sdt_spec_run v ops = Some v' /\ sdt_wf v'.
+Proof. exact sdt_history_refines. Qed.
+
+(* [sdt_model_run] is what the judged function [sdt_case] (the one the harness compares with the crate) observes at the
+   end of the history: one status number per operation, then the image *)
+Theorem c13_model_run_is_the_judged_model :
+  forall md c v0 ops v',
+    sdt_new c = Some v0 -> Forall sdt_op_ok ops -> sdt_model_run md v0 ops = Some v' ->
+    exists nums, length nums = length ops /\ sdt_case md (SL (c :: ops ++ [SA 1])) = rev nums ++ [EvBytes v'].
+Proof. exact sdt_case_observes_model_run. Qed.
+
+(* Checksum, one operation: whatever the table looked like before (summing to 0 or not), a PERFORMED operation leaves an
+   image summing to 0 -- the single exception being a sink push of no byte at all, which does nothing. *)
+Theorem c13_performed_sums_to_zero :
+  forall md v o v',
+    sdt_wf v -> sdt_op_ok o -> sdt_op md v o = Some (Some v') -> sum8 v' = 0 \/ (v' = v /\ o = SL [SA 6; SL []]).
+Proof. exact sdt_performed_sums_to_zero. Qed.
+
+(* Checksum, histories: starting from any table the constructor returns, after EVERY prefix [pre] of EVERY history
+   (performed and refused operations alike) the image sums to 0. *)
+Theorem c13_every_prefix_sums_to_zero :
+  forall md c v0 pre post,
+    sdt_new c = Some v0 -> Forall sdt_op_ok (pre ++ post) -> N.of_nat (length v0) + ops_growth (pre ++ post) < 2 ^ 62 ->
+    exists v, sdt_model_run md v0 pre = Some v /\ sdt_spec_run v0 pre = Some v /\ sdt_wf v /\ sum8 v = 0.
+Proof. exact sdt_every_prefix_sums_to_zero. Qed.
+
+(* Length bookkeeping: if the Length field (the little-endian dword at offset 4) equals the size before, and no write of
+   the history lands in bytes 4..7 ([op_keeps_length]: appends, sink pushes, update_checksum, writes with offset >= 8 or
+   ending at or before 4 -- refused or not), then it equals the size after, as long as the table stays below 2^32 bytes. *)
+Theorem c13_length_field_tracks_size :
+  forall md ops v,
+    sdt_wf v -> field_at v 4 4 = N.of_nat (length v) -> Forall sdt_op_ok ops -> Forall op_keeps_length ops ->
+    N.of_nat (length v) + ops_growth ops < 2 ^ 32 ->
+    exists v', sdt_model_run md v ops = Some v' /\ sdt_spec_run v ops = Some v' /\
+               field_at v' 4 4 = N.of_nat (length v') /\ N.of_nat (length v') < 2 ^ 32.
+Proof. exact sdt_length_field_tracks_size. Qed.
+
+(* ... in particular from the constructor, on every prefix: Length = size and sum = 0 together *)
+Theorem c13_length_field_tracks_size_from_new :
+  forall md c v0 pre post,
+    sdt_spec_new c = Some v0 -> Forall sdt_op_ok (pre ++ post) -> Forall op_keeps_length (pre ++ post) ->
+    N.of_nat (length v0) + ops_growth (pre ++ post) < 2 ^ 32 ->
+    sdt_new c = Some v0 /\
+    exists v, sdt_model_run md v0 pre = Some v /\ sdt_spec_run v0 pre = Some v /\
+              field_at v 4 4 = N.of_nat (length v) /\ sum8 v = 0.
+Proof. exact sdt_new_length_field_tracks_size. Qed.
+
+(* The constructor: on the whole domain of the Spec's constructor (4/6/8-byte identifiers, 36 <= length < 2^32) the model
+   builds the same vector; it has the declared length, sums to 0 and carries its length in the Length field.  And whatever
+   the model's constructor accepts at all is a well-formed table summing to 0. *)
+Theorem c13_constructor_refines :
+  (forall c v, sdt_spec_new c = Some v -> sdt_new c = Some v) /\
+  (forall c v, sdt_spec_new c = Some v ->
+     sdt_wf v /\ sum8 v = 0 /\ field_at v 4 4 = N.of_nat (length v) /\ N.of_nat (length v) < 2 ^ 32) /\
+  (forall c v, sdt_new c = Some v -> sum8 v = 0 /\ sdt_wf v).
+Proof. split; [exact sdt_new_refines|split; [exact sdt_spec_new_props|exact sdt_new_sums_to_zero]]. Qed.
+
+(* Refused operations at history level: a refused operation anywhere in a history can be deleted without changing the
+   outcome, and a history of refused operations leaves the table as it was. *)
+Theorem c13_refused_op_is_noop :
+  (forall md pre o post v v1,
+     sdt_model_run md v pre = Some v1 -> sdt_op md v1 o = Some None ->
+     sdt_model_run md v (pre ++ o :: post) = sdt_model_run md v (pre ++ post)) /\
+  (forall md ops v, Forall (fun o => sdt_op md v o = Some None) ops -> sdt_model_run md v ops = Some v).
+Proof. split; [exact sdt_refused_op_is_noop|exact sdt_refused_history_unchanged]. Qed.
+
+(* AML inside a generic table (how a VMM builds its DSDT).  For every arity environment, every well-formed term t
+   (Proofs/AmlRoundTrip.v [wf], as in c06_roundtrip), both profiles, every table v0 of at least 36 bytes: if t serialises to
+   the bytes b (all of them bytes -- in Rust a typing fact: the sink takes u8) and the result stays below 2^32 bytes, then
+   pushing b through the Sdt sink one byte at a time and appending b with one append_slice both succeed with the SAME
+   image; that image is |v0| + |b| bytes long, sums to 0, has Length = its size, keeps every old byte outside Length and
+   Checksum, carries b intact after the old table -- and that body parses back (any fuel above the nesting depth),
+   completely, to the tree the caller built. *)
+Theorem c13_dsdt_composition :
+  forall env t md b v0,
+    wf env false t -> enc md t = Some b -> bytes_ok b = true ->
+    (36 <= length v0)%nat -> N.of_nat (length v0 + length b) < 2 ^ 32 ->
+    exists img g,
+      sdt_sink_vec md v0 b = Some img /\ sdt_append_slice md v0 b = Some img /\
+      length img = (length v0 + length b)%nat /\ sum8 img = 0 /\ field_at img 4 4 = N.of_nat (length img) /\
+      skipn (length v0) img = b /\
+      (forall i, (i < length v0)%nat -> i <> 9%nat -> ~ (4 <= i < 8)%nat -> nth i img 0 = nth i v0 0) /\
+      norm false t = Some g /\
+      forall f, (depth t < f)%nat -> parse env f false (skipn (length v0) img) = Some (g, []).
+Proof.
+  intros env t md b v0 Hwf He Hb Hv Hsz.
+  destruct (dsdt_composition env t md b v0 Hwf He Hb Hv Hsz) as (img & g & H1 & H2 & _ & [P1 P2 P3 P4 P5] & H3 & H4).
+  exists img, g. repeat split; assumption.
+Qed.
+
+(* the same for a whole TermList as the body, delivered in any chunking through the sink's five entry points *)
+Theorem c13_dsdt_body_composition :
+  forall env ks md b v0,
+    Forall (wf env false) ks -> encs md ks = Some b -> bytes_ok b = true -> b <> [] ->
+    (36 <= length v0)%nat -> N.of_nat (length v0 + length b) < 2 ^ 32 ->
+    exists img gs,
+      sdt_sink_vec md v0 b = Some img /\ sdt_append_slice md v0 b = Some img /\
+      (forall tr, flatten tr = b -> run_sdt md v0 tr = Some img) /\
+      length img = (length v0 + length b)%nat /\ sum8 img = 0 /\ field_at img 4 4 = N.of_nat (length img) /\
+      skipn (length v0) img = b /\
+      norms false ks = Some gs /\
+      forall f, (depths ks < f)%nat ->
+        parse_all (parse env f) (length img - length v0) false (skipn (length v0) img) = Some gs.
+Proof.
+  intros env ks md b v0 Hwf He Hb Hne Hv Hsz.
+  destruct (dsdt_body_composition env ks md b v0 Hwf He Hb Hne Hv Hsz) as (img & gs & H1 & H2 & H3 & [P1 P2 P3 P4 P5] & H4 & H5).
+  exists img, gs. repeat split; assumption.
+Qed.
+
+Print Assumptions c13_history_refines.
+Print Assumptions c13_model_run_is_the_judged_model.
+Print Assumptions c13_performed_sums_to_zero.
+Print Assumptions c13_every_prefix_sums_to_zero.
+Print Assumptions c13_length_field_tracks_size.
+Print Assumptions c13_length_field_tracks_size_from_new.
+Print Assumptions c13_constructor_refines.
+Print Assumptions c13_refused_op_is_noop.
+Print Assumptions c13_dsdt_composition.
+Print Assumptions c13_dsdt_body_composition.
+
+(* ---------------- non-vacuity ---------------- *)
+(* Sdt::new with signature DSDT, length 36, revision 2, oem id CLOUDH, oem table id CHDSDT, oem revision 1; and a history with every kind of operation, two refusals
+   (one of them only through the wrapped offset + length of the release profile), a write across the checksum byte,
+   a write ending at byte 4, and an empty sink push *)
+Definition c13_ctor : sx :=
+  SL [SL [SA 68; SA 83; SA 68; SA 84]; SA 36; SA 2; SL [SA 67; SA 76; SA 79; SA 85; SA 68; SA 72];
+      SL [SA 67; SA 72; SA 68; SA 83; SA 68; SA 84; SA 32; SA 32]; SA 1].
+Definition c13_v36 : list N := match sdt_new c13_ctor with Some v => v | None => [] end.
+Definition c13_ops : list sx :=
+  [SL [SA 1; SA 4; SA 0xDEADBEEF];                    (* append::<u32>                                   36 -> 40 *)
+   SL [SA 3; SA 8; SL [SA 7; SA 0xAA; SA 3]];         (* write_bytes(8, ..): revision, CHECKSUM, oem_id[0] *)
+   SL [SA 6; SL [SA 1; SA 2; SA 3]];                  (* three bytes through the sink                    40 -> 43 *)
+   SL [SA 4; SA 8; SA 40; SA 5];                      (* write_u64(40, 5): 48 > 43                       refused *)
+   SL [SA 3; SA (2 ^ 64 - 1); SL [SA 1; SA 2]];       (* offset + len wraps to 1 in release              refused *)
+   SL [SA 7];                                         (* update_checksum *)
+   SL [SA 2; SL [SA 9; SA 9]];                        (* append_slice                                    43 -> 45 *)
+   SL [SA 5; SA 2; SA 0x1234];                        (* sink.word                                       45 -> 47 *)
+   SL [SA 6; SL []];                                  (* empty push: nothing happens *)
+   SL [SA 3; SA 0; SL [SA 88; SA 89; SA 90; SA 87]]]. (* write_bytes(0, "XYZW"): ends at byte 4 *)
+
+(* the hypotheses of the history theorems hold of it ... *)
+Example c13_demo_hypotheses :
+  sdt_new c13_ctor = Some c13_v36 /\ sdt_spec_new c13_ctor = Some c13_v36 /\ sdt_wf c13_v36 /\
+  Forall sdt_op_ok c13_ops /\ Forall op_keeps_length c13_ops /\
+  N.of_nat (length c13_v36) + ops_growth c13_ops = 47.
+Proof.
+  split; [reflexivity|]. split; [vm_compute; reflexivity|]. split; [split; vm_compute; [lia|reflexivity]|].
+  split; [apply sdt_ops_okb_sound; vm_compute; reflexivity|]. split; [|vm_compute; reflexivity].
+  unfold c13_ops.
+  repeat first [apply Forall_nil | apply Forall_cons
+               | apply kl_append | apply kl_append_slice | apply kl_sink_int | apply kl_sink_vec | apply kl_update_checksum
+               | eapply kl_write_bytes; [reflexivity|first [left; vm_compute; discriminate|right; vm_compute; discriminate]]
+               | eapply kl_write_int; [reflexivity|first [left; vm_compute; discriminate|right; vm_compute; discriminate]]].
+Qed.
+
+(* ... and this is what they conclude of it: both profiles and the Spec end in the same 47 bytes ("XYZW" written, Length 47,
+   revision 7 / oem_id[0] 3 written, the checksum byte the caller wrote (0xAA) replaced, the five pushes in place), the
+   judged function reports performed / refused as expected *)
+Example c13_history_demo :
+  sdt_model_run Checked c13_v36 c13_ops = sdt_spec_run c13_v36 c13_ops /\
+  sdt_model_run Wrapping c13_v36 c13_ops = sdt_spec_run c13_v36 c13_ops /\
+  sdt_spec_run c13_v36 c13_ops =
+    Some [88; 89; 90; 87; 47; 0; 0; 0; 7; 26; 3; 76; 79; 85; 68; 72; 67; 72; 68; 83; 68; 84; 32; 32; 1; 0; 0; 0; 82; 86; 65; 84;
+          0; 0; 0; 1; 239; 190; 173; 222; 1; 2; 3; 9; 9; 52; 18] /\
+  firstn 10 (sdt_case Wrapping (SL (c13_ctor :: c13_ops ++ [SA 1]))) =
+    [EvNum 0; EvNum 0; EvNum 0; EvNum 1; EvNum 1; EvNum 0; EvNum 0; EvNum 0; EvNum 0; EvNum 0] /\
+  sdt_case Checked (SL (c13_ctor :: c13_ops ++ [SA 1])) = sdt_case Wrapping (SL (c13_ctor :: c13_ops ++ [SA 1])).
+Proof. vm_compute. repeat split. Qed.
+
+(* every prefix: (size, byte sum, Length field) after 0, 1, ..., 10 operations *)
+Example c13_every_prefix_demo :
+  map (fun n => option_map (fun a => (N.of_nat (length a), sum8 a, field_at a 4 4)) (sdt_model_run Wrapping c13_v36 (firstn n c13_ops)))
+      (seq 0 11)
+  = map Some [(36, 0, 36); (40, 0, 40); (40, 0, 40); (43, 0, 43); (43, 0, 43); (43, 0, 43); (43, 0, 43); (45, 0, 45);
+              (47, 0, 47); (47, 0, 47); (47, 0, 47)].
+Proof. vm_compute. reflexivity. Qed.
+
+(* the exception in c13_performed_sums_to_zero is real (a table not summing to 0 stays so under an empty push), and so is
+   the hypothesis of c13_length_field_tracks_size (write_u32(4, 1000) is performed and the field no longer tells the size) *)
+Example c13_side_conditions_are_needed :
+  sdt_op Checked (repeatN 1 36) (SL [SA 6; SL []]) = Some (Some (repeatN 1 36)) /\ sum8 (repeatN 1 36) = 36 /\
+  match sdt_model_run Checked c13_v36 [SL [SA 4; SA 4; SA 4; SA 1000]] with
+  | Some v => length v = 36%nat /\ field_at v 4 4 = 1000 /\ sum8 v = 0
+  | None => False
+  end.
+Proof. vm_compute. repeat split. Qed.
+
+(* the constructor: equal on the Spec's domain; a declared length of 2^32 + 40 is outside it (it is not a u32) *)
+Example c13_constructor_demo :
+  sdt_spec_new c13_ctor = sdt_new c13_ctor /\ sdt_new c13_ctor <> None /\
+  (let big := SL [SL [SA 68; SA 83; SA 68; SA 84]; SA (2 ^ 32 + 40); SA 2; SL [SA 67; SA 76; SA 79; SA 85; SA 68; SA 72];
+                  SL [SA 67; SA 72; SA 68; SA 83; SA 68; SA 84; SA 32; SA 32]; SA 1] in
+   sdt_spec_new big = None /\ option_map (@length N) (sdt_new big) = Some 40%nat).
+Proof. vm_compute. repeat split. discriminate. Qed.
+
+(* refusals: deleting the two refused operations from the history changes nothing *)
+Example c13_refused_demo :
+  sdt_model_run Wrapping c13_v36 c13_ops = sdt_model_run Wrapping c13_v36 (firstn 3 c13_ops ++ skipn 5 c13_ops).
+Proof. vm_compute. reflexivity. Qed.
+
+(* a DSDT body: Device (_SB_.COM1) { Name (_HID, EISAID "PNP0501"); Name (_CRS, ResourceTemplate { IO, Interrupt });
+   Method (TEST, 1) { If (Arg0 == 5) { Return (Local0) } } } *)
+Definition c13_dsdt_term : term :=
+  TDevice [95; 83; 66; 95; 46; 67; 79; 77; 49]
+    [TName [95; 72; 73; 68] (TEisa [80; 78; 80; 48; 53; 48; 49]);
+     TName [95; 67; 82; 83] (TResTemplate [TDesc (DIO 0x3F8 0x3F8 1 8); TDesc (DIrq 1 0 0 0 4)]);
+     TMethod [84; 69; 83; 84] 1 0 [TIf (TOp2 0 (TArg 0) (TInt 8 5)) [TOp1 2 (TLocal 0)]]].
+
+Example c13_dsdt_term_wf : wf (fun _ => O) false c13_dsdt_term.
+Proof.
+  cbn [c13_dsdt_term wf].
+  repeat match goal with
+         | |- _ /\ _ => split
+         | |- True => exact Logic.I
+         | |- wf_name _ => eexists; split; [vm_compute; reflexivity|repeat constructor]
+         | |- Forall _ _ => repeat constructor
+         | |- desc_child _ => eexists; reflexivity
+         | |- _ < _ => reflexivity
+         | |- _ <= _ => discriminate
+         end.
+  all: try (left; split; reflexivity).
+Qed.
+
+(* the remaining hypotheses of c13_dsdt_composition hold (65 bytes, all bytes), and its conclusion computed: sink and
+   append_slice give the same 101-byte image, sum 0, Length 101, body = the AML bytes, parsing back to the tree *)
+Example c13_dsdt_demo :
+  match enc Wrapping c13_dsdt_term with
+  | Some b =>
+      bytes_ok b = true /\ length b = 65%nat /\ enc Checked c13_dsdt_term = Some b /\
+      sdt_sink_vec Wrapping c13_v36 b = sdt_append_slice Wrapping c13_v36 b /\
+      sdt_sink_vec Checked c13_v36 b = sdt_append_slice Wrapping c13_v36 b /\
+      match sdt_append_slice Wrapping c13_v36 b with
+      | Some img =>
+          length img = 101%nat /\ sum8 img = 0 /\ field_at img 4 4 = 101 /\ skipn 36 img = b /\
+          firstn 4 img = [68; 83; 68; 84] /\
+          parse (fun _ => O) 10 false (skipn 36 img) = option_map (fun g => (g, [])) (norm false c13_dsdt_term) /\
+          norm false c13_dsdt_term <> None
+      | None => False
+      end
+  | None => False
+  end.
+Proof. vm_compute. repeat split; try reflexivity; discriminate. Qed.
+
+(* the theorem applied to it, both profiles *)
+Example c13_dsdt_demo_applies : forall md b,
+  enc md c13_dsdt_term = Some b -> bytes_ok b = true -> N.of_nat (length c13_v36 + length b) < 2 ^ 32 ->
+  exists img g, sdt_sink_vec md c13_v36 b = Some img /\ sdt_append_slice md c13_v36 b = Some img /\ sum8 img = 0 /\
+                norm false c13_dsdt_term = Some g /\ parse (fun _ => O) 5 false (skipn 36 img) = Some (g, []).
+Proof.
+  intros md b He Hb Hsz.
+  destruct (c13_dsdt_composition (fun _ => O) c13_dsdt_term md b c13_v36 c13_dsdt_term_wf He Hb) as
+    (img & g & H1 & H2 & _ & H3 & _ & _ & _ & H4 & H5); [vm_compute; lia|exact Hsz|].
+  exists img, g. repeat split; try assumption. apply (H5 5%nat). vm_compute. lia.
+Qed.
